@@ -25,7 +25,9 @@ def B.jumping (b : B) : Bool := b.returning || b.exiting
 
 def B.setLast (b : B) (v : Nat) : B := { b with st := { b.st with last := v } }
 
-/-- what every command does once it has completed: errexit (`set -e`) unless in an exempt context -/
+/-- what a simple command (incl. a function call), a subshell or a failing builtin does once it has
+completed: errexit (`set -e`) unless in an exempt context. Brace groups, loops, `if` and `case` do not
+check again (execute_cmd.c checks in the cm_simple / subshell / pipeline / arith / cond paths only). -/
 def B.errexitCheck (sup : Bool) (b : B) : B :=
   if !sup && b.st.errexit && b.st.last ≠ 0 && !b.pending then { b with exiting := true } else b
 
@@ -71,7 +73,7 @@ def spec : Nat → List Cmd → Bool → Cmd → B → Option B
         if b1.st.last = 0 then
           match spec fuel fs sup thn b1 with
           | none => none
-          | some b2 => some (B.errexitCheck sup b2)
+          | some b2 => some b2
         else if b1.pending then some b1 else some (b1.setLast 0)   -- execute_command(NULL) while breaking returns $?
     | .if2 cond thn els =>
       match spec fuel fs true cond b with
@@ -79,23 +81,23 @@ def spec : Nat → List Cmd → Bool → Cmd → B → Option B
       | some b1 =>
         match spec fuel fs sup (if b1.st.last = 0 then thn else els) b1 with
         | none => none
-        | some b2 => some (B.errexitCheck sup b2)
+        | some b2 => some b2
     | .whileU isUntil cond body =>
       match specW fuel fs sup isUntil cond body { b with level := b.level + 1 } 0 with
       | none => none
-      | some b1 => some (B.errexitCheck sup { b1 with level := b1.level - 1 })
+      | some b1 => some { b1 with level := b1.level - 1 }
     | .forIn n body =>
       match specF fuel fs sup n body { b with level := b.level + 1 } 0 with
       | none => none
-      | some b1 => some (B.errexitCheck sup { b1 with level := b1.level - 1 })
+      | some b1 => some { b1 with level := b1.level - 1 }
     | .case arms =>
       match specArms fuel fs sup arms false b 0 with
       | none => none
-      | some b1 => some (B.errexitCheck sup b1)
+      | some b1 => some b1
     | .group c =>
       match spec fuel fs sup c b with
       | none => none
-      | some b1 => some (B.errexitCheck sup b1)
+      | some b1 => some b1
     | .subshell c =>
       match spec fuel fs sup c { b with level := 0 } with
       | none => none
